@@ -40,7 +40,11 @@ var (
 	tagPool = []string{"a", "b", "c", "blue", "green", "a b"}
 	optPool = []string{"strip=/foo", "proto=https", "host=dst", "k", "a=b=c", "strip=/bar", "prepend=/p", "=v", "tlsskipverify=true"}
 	weights = []string{"0.1", "0.25", "0.5", "1", "0.3333", "2", "0", "-1", "0.05", "0.00001", "0.7", "0.3", "0.2", "0.9", "0.00005", "0.12345", "3"}
-	oddW    = []string{"1e-1", ".5", "+0.2", "5.", "0x1p-2", "1_0", "abc", "0.5x", "-0", "00.50", "1E0"}
+	oddW    = []string{"1e-1", ".5", "+0.2", "5.", "0x1p-2", "1_0", "abc", "0.5x", "-0", "00.50", "1E0",
+		"NaN", "nan", "Inf", "+Inf", "-inf", "infinity", "-Infinity", "1e999", "0x1p1024", "-1e400", "5e-324"}
+	oddSvc  = []string{`s"x`, `a\b`, "k=v", "svc,1", `"q"`, "tags", "weight"}
+	oddPath = []string{`/p"q`, `/a\b`, "/x=y", "/a,b", "/tags"}
+	oddDst  = []string{"http://h/a=b", "http://h/q?x=1&y=2", `http://h/a"b`, "http://h/a,b"}
 )
 
 type added struct {
@@ -154,6 +158,17 @@ func (g *gen) addCmd() string {
 	if g.class == "directed" && g.r.Intn(12) == 0 {
 		a.path = g.pick([]string{"/[x", "/{a", "/ok"})
 	}
+	if g.class == "odd-tokens" {
+		if g.r.Intn(3) == 0 {
+			a.svc = g.pick(oddSvc)
+		}
+		if g.r.Intn(3) == 0 && !strings.HasPrefix(a.host, ":") {
+			a.path = g.pick(oddPath)
+		}
+		if g.r.Intn(3) == 0 {
+			a.dst = g.pick(oddDst)
+		}
+	}
 	if g.class == "bad-hosts" && g.r.Intn(5) == 0 {
 		a.host = g.pick(badHosts)
 		if a.path == "" {
@@ -167,7 +182,7 @@ func (g *gen) addCmd() string {
 	s := "route" + sp() + "add" + sp() + a.svc + sp() + g.src(g.mixCase(a.host, g.caseProb()), a.path) + sp() + a.dst
 	if g.r.Intn(100) < g.weightPct() {
 		w := g.pick(weights)
-		if g.class == "directed" && g.r.Intn(4) == 0 {
+		if (g.class == "directed" || g.class == "odd-tokens") && g.r.Intn(4) == 0 {
 			w = g.pick(oddW)
 		}
 		s += sp() + "weight" + sp() + w
@@ -486,7 +501,9 @@ func (f *facts) scan(text string) {
 			if fs[i] == "weight" {
 				lit := fs[i+1]
 				v, err := strconv.ParseFloat(lit, 64)
-				if err != nil {
+				if err != nil || math.IsNaN(v) || math.IsInf(v, 0) {
+					// the fact the model takes is parseWeight's: strconv.ParseFloat followed by the
+					// rejection of NaN and +-Inf (since /repo 0b2a40e)
 					f.wl[lit] = vh.Err(5)
 				} else if w, ok := wtTerm(v); ok {
 					f.wl[lit] = vh.Ok(w)
@@ -696,6 +713,14 @@ var directed = []string{
 	"route add svc-a foo.com/fo http://10.0.0.1:8080/\nroute add svc-a foo.com/Foo http://10.0.0.1:8080/\nroute add svc-a foo.com/foo http://10.0.0.1:8080/\nroute add svc-a foo.com/FOO http://10.0.0.1:8080/\nroute add svc-a foo.com/ http://10.0.0.1:8080/",
 	"route add svc-a foo.com/a/B http://10.0.0.1:8080/\nroute add svc-a foo.com/A/b http://10.0.0.1:8080/\nroute add svc-a foo.com/Z http://10.0.0.1:8080/\nroute add svc-a foo.com/a http://10.0.0.1:8080/\nroute add svc-a foo.com/a/b/c http://10.0.0.1:8080/",
 	"route add svc-a foo.com/Ab http://10.0.0.1:8080/\nroute add svc-a foo.com/aa http://10.0.0.1:8080/\nroute add svc-a foo.com/AB http://10.0.0.1:8080/\nroute add svc-a foo.com/ab http://10.0.0.1:8080/\nroute add svc-a foo.com/aB http://10.0.0.1:8080/",
+	// a weight is a finite number (since 0b2a40e): NaN / Inf literals are syntax errors; before, NaN made add non-idempotent
+	"route add svc-a foo.com/ http://10.0.0.1:8080/ weight NaN\nroute add svc-a foo.com/ http://10.0.0.1:8080/ weight NaN",
+	"route add svc-a foo.com/ http://10.0.0.1:8080/ weight nan",
+	"route add svc-a foo.com/ http://10.0.0.1:8080/ weight +Inf",
+	"route add svc-a foo.com/ http://10.0.0.1:8080/ weight -infinity",
+	"route add svc-a foo.com/ http://10.0.0.1:8080/\nroute weight svc-a foo.com/ weight inf",
+	"route add svc-a foo.com/ http://10.0.0.1:8080/ weight 1e999",
+	"route add svc-a foo.com/ http://10.0.0.1:8080/ weight 0x1p1024",
 	"route add svc-a foo.com/[x http://10.0.0.1:8080/",
 	// host patterns that do not compile are rejected when the host is first added (c9fb527)
 	"route add svc-a [/ http://10.0.0.1:8080/",
@@ -711,11 +736,182 @@ var directed = []string{
 	"route add svc-a foo.com/ http://10.0.0.1:8080/\nroute add svc-a foo.com/{a http://10.0.0.1:8080/",
 }
 
+// ---------- RouteDef level: route.NewTableCustom (what the admin API and custom backends feed) ----------
+
+var defWeights = []float64{0, 0, 0.25, 0.5, 1, -1, 2, 0.3333}
+
+func genDefs(r *rand.Rand) []route.RouteDef {
+	g := &gen{r: r, class: "defs"}
+	n := 1 + r.Intn(14)
+	var ds []route.RouteDef
+	var known []route.RouteDef
+	pickS := func(l []string, emptyPct int) string {
+		if r.Intn(100) < emptyPct {
+			return ""
+		}
+		return l[r.Intn(len(l))]
+	}
+	tags := func() []string {
+		switch r.Intn(6) {
+		case 0, 1, 2:
+			return nil
+		case 3:
+			return []string{g.pick([]string{"a,b", `q"t`, " pad ", ""})}
+		default:
+			return g.tags(1 + r.Intn(2))
+		}
+	}
+	opts := func() map[string]string {
+		if r.Intn(3) != 0 {
+			return nil
+		}
+		m := map[string]string{}
+		for i := 0; i < 1+r.Intn(2); i++ {
+			kv := strings.SplitN(g.pick(optPool), "=", 2)
+			v := ""
+			if len(kv) == 2 {
+				v = kv[1]
+			}
+			m[kv[0]] = v
+		}
+		return m
+	}
+	for i := 0; i < n; i++ {
+		var d route.RouteDef
+		x := r.Intn(100)
+		if len(known) > 0 && r.Intn(10) < 6 {
+			d = known[r.Intn(len(known))]
+			d.Src = g.mixCase(d.Src, 0.3)
+		} else {
+			d = route.RouteDef{Service: pickS(services, 4), Src: pickS([]string{"foo.com/", "Foo.com/x", "bar.org", ":8080", "/p", "a.b/"}, 8),
+				Dst: pickS(dsts, 8), Tags: tags()}
+		}
+		switch {
+		case x < 55:
+			d.Cmd = route.RouteAddCmd
+			d.Weight = defWeights[r.Intn(len(defWeights))]
+			d.Opts = opts()
+			known = append(known, d)
+		case x < 80:
+			d.Cmd = route.RouteDelCmd
+			d.Weight, d.Opts = 0, nil
+			switch r.Intn(5) {
+			case 0:
+				d.Src, d.Dst, d.Tags = "", "", nil
+			case 1:
+				d.Dst, d.Tags = "", nil
+			case 2:
+				d.Tags = nil
+			case 3:
+				d.Src, d.Tags = "", nil // src empty, dst given: the branch text cannot reach
+			}
+		default:
+			d.Cmd = route.RouteWeightCmd
+			d.Dst, d.Opts = "", nil
+			d.Weight = defWeights[r.Intn(len(defWeights))]
+			if r.Intn(4) == 0 {
+				d.Service = ""
+			}
+		}
+		ds = append(ds, d)
+	}
+	return ds
+}
+
+var directedDefs = [][]route.RouteDef{
+	{{Cmd: route.RouteAddCmd, Service: "s", Src: "", Dst: "http://h/"}},
+	{{Cmd: route.RouteAddCmd, Service: "s", Src: "foo.com/", Dst: ""}},
+	{{Cmd: route.RouteAddCmd, Service: "s", Src: "foo.com/", Dst: "http://h/"}, {Cmd: route.RouteWeightCmd, Service: "s", Src: "", Weight: 0.5}},
+	{{Cmd: route.RouteAddCmd, Service: "s", Src: "/", Dst: "http://h/"}, {Cmd: route.RouteDelCmd, Service: "s", Src: "", Dst: "http://h/"}},
+	{{Cmd: route.RouteAddCmd, Service: "s", Src: "Foo.com/", Dst: "http://h/", Tags: []string{"a,b", `q"t`}}, {Cmd: route.RouteDelCmd, Tags: []string{"a,b"}}},
+	{{Cmd: route.RouteAddCmd, Service: "", Src: "foo.com/", Dst: "http://h/"}, {Cmd: route.RouteAddCmd, Service: "", Src: "FOO.com/", Dst: "http://h/"}, {Cmd: route.RouteDelCmd, Service: ""}},
+	{{Cmd: route.RouteAddCmd, Service: "s", Src: "foo.com/", Dst: "http://h/", Weight: -1}, {Cmd: route.RouteAddCmd, Service: "s", Src: "foo.com/", Dst: "http://h/", Weight: 0}},
+}
+
+func defTerm(d route.RouteDef) (string, bool) {
+	cmd := map[route.Cmd]string{route.RouteAddCmd: "CmdAdd", route.RouteDelCmd: "CmdDel", route.RouteWeightCmd: "CmdWeight"}[d.Cmd]
+	w, ok := wtTerm(d.Weight)
+	if cmd == "" || !ok {
+		return "", false
+	}
+	var keys []string
+	for k := range d.Opts {
+		keys = append(keys, k)
+	}
+	sort.Strings(keys)
+	var kvs []string
+	for _, k := range keys {
+		kvs = append(kvs, vh.Pair(vh.HxS(k), vh.HxS(d.Opts[k])))
+	}
+	return vh.App("mk", cmd, vh.HxS(d.Service), vh.HxS(d.Src), vh.HxS(d.Dst), w, strList(d.Tags), vh.List(kvs)), true
+}
+
+func doDefs(run *vh.Run, class string, ds []route.RouteDef) {
+	f := newFacts()
+	var terms []string
+	var sample []string
+	for _, d := range ds {
+		if d.Tags != nil && len(d.Tags) == 0 {
+			// reflect.DeepEqual(nil, []string{}) is false: an empty non-nil tag slice is not the model's []
+			run.Exclude("RouteDef with an empty non-nil Tags slice")
+			return
+		}
+		if !ascii(d.Service + d.Src + d.Dst + strings.Join(d.Tags, "")) {
+			run.Exclude("non-ASCII text")
+			return
+		}
+		t, ok := defTerm(d)
+		if !ok {
+			run.Exclude("RouteDef outside the modelled domain (command or weight)")
+			return
+		}
+		terms = append(terms, t)
+		sample = append(sample, fmt.Sprintf("%s svc=%q src=%q dst=%q w=%v tags=%q opts=%v", d.Cmd, d.Service, d.Src, d.Dst, d.Weight, d.Tags, d.Opts))
+		if d.Dst != "" {
+			f.url(d.Dst)
+		}
+		if d.Cmd == route.RouteAddCmd {
+			h, p := hostpath(d.Src)
+			if _, err := glob.Compile(p); err != nil {
+				f.globs[p] = true
+			}
+			h = strings.ToLower(h)
+			if _, err := glob.Compile(h); err != nil {
+				f.globs[h] = true
+			}
+		}
+	}
+	var t route.Table
+	var err error
+	cp := append([]route.RouteDef(nil), ds...)
+	panicked, pv := vh.Recover(func() { t, err = route.NewTableCustom(&cp) })
+	id := run.NextID()
+	if panicked {
+		run.Violation(id, fmt.Sprintf("NewTableCustom panicked on a list of route definitions: %v", pv), sample)
+	}
+	impl, ok := outcomeTerm(run, id, t, err, panicked)
+	if !ok {
+		run.Exclude("table weight outside the modelled binary64 domain")
+		return
+	}
+	s := map[string]interface{}{"defs": sample}
+	if err != nil {
+		s["error"] = err.Error()
+	}
+	run.Add(class, vh.App("CDefs", f.urlTerm(), f.globTerm(), vh.List(terms), impl), s)
+}
+
 func main() {
 	run := vh.Start("C05")
-	classes := []string{"mixed", "case-hosts", "lower-only", "dup-add", "weights", "tags-escape", "whitespace", "malformed", "directed", "bad-hosts"}
+	classes := []string{"mixed", "case-hosts", "lower-only", "dup-add", "weights", "tags-escape", "whitespace", "malformed", "directed", "bad-hosts", "odd-tokens"}
 	for _, s := range directed {
 		doScript(run, "directed-fixed", s)
+	}
+	for _, ds := range directedDefs {
+		doDefs(run, "defs-fixed", ds)
+	}
+	for i := 0; i < run.Scale(260, 4000); i++ {
+		doDefs(run, "defs", genDefs(run.Rng))
 	}
 	n := run.Scale(1300, 20000)
 	for i := 0; i < n; i++ {
